@@ -110,7 +110,7 @@ func stdSeqJoin(_ context.Context, joiner, subject rel.Value) (rel.Value, error)
 		if _, isSet := joiner.(rel.GenericSet); isSet {
 			return subject, nil
 		}
-		return bytesJoin(joiner, subject), nil
+		return bytesJoin(joiner, subject)
 	case rel.GenericSet:
 		switch joiner.(type) {
 		case rel.String:
